@@ -15,6 +15,12 @@
          KeyboardInterrupt / SystemExit (serial, thread): the failure must still be forgotten on disk;
       C  the next run on the same DB with every input exactly as the last successful execution saw it and every action
          succeeding: shows whether a failed task is still "remembered".
+    Round 6: (i) per task, WHY it executes again in run B: `uptodate` false (task.dep_changed == []) or a file_dep modified
+    since the warm-up run while the others are not (trigger 'dep': dep_changed non-empty and partial) -- with outcome
+    saveerr an UNMODIFIED file_dep vanishes during that execution; (ii) the DELAYED SLICE (eval_delayed): creators delayed
+    with create_after(executed=pre) below a failing / unmet / ignored `pre`, ONE plain task or a group -- M1 has no delayed
+    creators, so these runs are judged by the Python statements only (counter delayed_slice:monitors_only); the group
+    shape is the open finding delayed-group-subtasks-run.
 (P) the statement on the implementation's behaviour: Lean monitors C05_no_dependent_runs / C05_serial_stops /
     C05_continue_complete / C05_not_recorded (DB content after B read back through the backend API) evaluated by the
     driver on run B's trace, cross-checked by Python reference monitors; plus the Python predicate C05_reexecuted on
@@ -90,10 +96,11 @@ META = {
                   'pass), is fully processed, and that its nTasks-round fixed-point iterations are complete.',
     'rule': 'runlib DAG generator (3-8 tasks, all edge kinds, groups, shared deps, calc deliveries, up-to-date and '
             'ignored tasks) with failure-heavy oracle: outcome failed/error/saveerr x how return/raise/object, status '
-            'error (missing file_dep), multi-action tasks failing in action 2 of 3, wildcard task_dep on a group, values the DB cannot store (set/bytes), lazily invalid actions (int / 4-tuple), runs cut short by a raising reporter / an interrupting teardown, cmd-action placements (exit status 1/2/126/127/200, death by SIGKILL/SIGTERM/SIGSEGV, list and shell form); backend json|dbm|sqlite3; warm-up run or not; runner serial | thread k=1..4 x '
+            'error (missing file_dep), multi-action tasks failing in action 2 of 3, wildcard task_dep on a group, values the DB cannot store (set/bytes), lazily invalid actions (int / 4-tuple), runs cut short by a raising reporter / an interrupting teardown, re-execution in the failing run caused by uptodate false OR by one modified file_dep next to unmodified ones (trigger=dep; with outcome saveerr an UNMODIFIED file_dep vanishes during the execution), delayed slice (monitors only, counters delayed_slice:*): create_after(executed=pre) with pre failing in 7 ways / unmet / ignored x ONE plain task | group of 1-3 sub-tasks x dependent via task_dep/setup x serial/thread x --continue x warm-up x backend, cmd-action placements (exit status 1/2/126/127/200, death by SIGKILL/SIGTERM/SIGSEGV, list and shell form); backend json|dbm|sqlite3; warm-up run or not; runner serial | thread k=1..4 x '
             'schedule policy | process k=2,3; non-trivial = at least one failure report and one dependency edge; '
             'distinct = distinct rendered case + backend + warm + schedule',
-    'assumptions': ['actions touch only their own targets (granularity assumption of M1 for thread mode)',
+    'assumptions': ['delayed task-creators are outside M1: the delayed slice is monitors-only (no trace acceptance)',
+                    'actions touch only their own targets (granularity assumption of M1 for thread mode)',
                     'process-mode runs are sampled (real OS scheduling; completion order forced, pick-up order not)',
                     'a setup edge of a task that is up-to-date is not a dependency (DESIGN §5 reading of "closure")',
                     'only dbm.dumb is available as dbm backend in this sandbox'],
@@ -103,7 +110,15 @@ META = {
     'models': ['M1'],
 }
 
-SIGNATURES = {}
+def _sig_delayed_group_subtasks(w):
+    """the delayed slice, the creator yields a GROUP, the only false statement is no_dependent_runs and the task that
+    started below the failed trigger is a SUB-TASK made by the delayed creator"""
+    d = (w.get('detail') or {}).get('no_dependent_runs') or {}
+    return bool(w.get('delayed_slice')) and (w.get('case') or {}).get('shape') == 'group' \
+        and w.get('failed_monitors') == ['C05_no_dependent_runs'] and str(d.get('started', '')).startswith('late:')
+
+
+SIGNATURES = {'delayed-group-subtasks-run': _sig_delayed_group_subtasks}
 
 LEAN_KEYS = ['C05_no_dependent_runs', 'C05_serial_stops', 'C05_continue_complete', 'C05_not_recorded']
 # the same statements with "fails" read as what the task's action DID (known to the harness: it wrote the action), not
@@ -292,6 +307,11 @@ def gen_case(rng, runner='serial', **knobs):
             v['badval'] = rng.choice(['set', 'bytes'])
     c['backend'] = backend or rng.choice(BACKENDS)
     c['warm'] = (rng.random() < 0.65) if warm is None else warm
+    # round 6: WHY a task executes again in run B: `uptodate` false (dep_changed empty) or one of its file_dep modified
+    # since the warm-up run while its other file_dep are not (dep_changed non-empty and partial)
+    for t in c['tasks']:
+        if t['kind'] != 'group' and t['status'] == 'run' and rng.random() < 0.4:
+            t['trigger'] = 'dep'
     # runs that are cut short by an exception raised from the reporter (inside add_failure) or by a teardown action that
     # raises KeyboardInterrupt / SystemExit: the failure must still be forgotten ON DISK
     r = rng.random()
@@ -401,8 +421,17 @@ def _make_actions(rec, cell, n, t):
 def _make_flag(cell, t):
     def flag():
         # run B: the oracle decides; runs A and C: nothing but saved state decides
+        # (trigger 'dep': the re-execution in run B is caused by a MODIFIED file_dep -- in_<task> is rewritten between
+        # A and B -- and not by `uptodate`: get_status then walks every file_dep and leaves a non-empty, partial
+        # task.dep_changed)
+        if dep_triggered(t):
+            return True
         return not (cell['phase'] == 'B' and t['status'] == 'run')
     return flag
+
+
+def dep_triggered(t):
+    return t.get('trigger') == 'dep' and t['kind'] != 'group' and t['status'] == 'run'
 
 
 class PlantReporter(runlib.RecReporter):
@@ -482,10 +511,10 @@ def build_namespace(case, rec, cell):
                             'reporter': PlantReporter}}
 
 
-def _write(path, text):
+def _write(path, text, mtime=FIXED_MTIME):
     with open(path, 'w') as fh:
         fh.write(text)
-    os.utime(path, (FIXED_MTIME, FIXED_MTIME))
+    os.utime(path, (mtime, mtime))
 
 
 def _db_class(backend):
@@ -578,6 +607,11 @@ def run_phases(case, watchdog=None, keep_raw=False):
                 for f in t['file_dep']:
                     if f.startswith('missing_') and os.path.exists(f):
                         os.unlink(f)
+            for t in case['tasks']:
+                if dep_triggered(t) and not stateless(case, t):
+                    # (stays as it is for run C: that is what the last execution saw)
+                    _write('in_' + fsname(t['name']), 'input of %s, second and longer version\n' % t['name'],
+                           FIXED_MTIME + 60)
             # ---- run B
             cell['phase'] = 'B'
             rec[0] = runlib.Recorder('file' if runner == 'process' else 'mem', names, path=os.path.abspath('events.jsonl'))
@@ -930,6 +964,9 @@ def render(case):
         if t.get('outcome') == 'saveerr-values':
             extra.append('%s: its action returns a value of type %s among its values (cannot be stored in the DB)'
                          % (t['name'], t.get('badval', 'set')))
+        if dep_triggered(t) and case.get('warm'):
+            extra.append('%s: executes again because its file_dep in_%s was modified after the warm-up run (uptodate true)'
+                         % (t['name'], fsname(t['name'])))
         if t.get('multi'):
             extra.append('%s: three actions (marks+values, the outcome, more targets+values)' % t['name'])
         if t.get('wild_dep'):
@@ -1047,6 +1084,12 @@ def count_case(st, case, obs):
                 st.count('wildcard_task_dep:sub_task_failed')
         if t.get('outcome') == 'saveerr-values':
             st.count('unsavable_values:%s' % t.get('badval'))
+        if dep_triggered(t) and case['warm'] and not stateless(case, t):
+            i_ = case['tasks'].index(t)
+            if any(e[0] == 'start' and e[1] == i_ for e in obs['trace']):
+                st.count('reexecuted_by_modified_file_dep')
+                if t['outcome'] == 'saveerr':
+                    st.count('reexecuted_by_modified_file_dep:unmodified_dep_vanishes')
     if obs.get('aborted') == 'flush':
         st.count('aborted_run:db_flush_failed')
     if case.get('abort'):
@@ -1120,6 +1163,8 @@ def enumerate_schedules(case, limit=64, on_obs=None):
 
 def eval_batch(batch):
     """worker: batch = {'cases': [case...]} and/or {'gen': [(seed, knobs)...]} and/or {'explore': [thread case...]}"""
+    if batch.get('delayed'):
+        return eval_delayed(batch)
     st = common.WorkerStats()
     common.use_repo()
     pairs = []
@@ -1153,6 +1198,370 @@ def eval_batch(batch):
             continue
         shrink_left -= judge(c, o, a, st, shrink_left)
     return st
+
+
+# ======================================================================================================
+# round 6: delayed task-creators (`@create_after(executed=X)`) below a failing task -- monitors only
+# ======================================================================================================
+# M1 has no delayed creators (they are M-delayed / C15's model): this slice evaluates the STATEMENT of C05 (Python trace
+# predicates) on runs of the real doit, without trace acceptance; counted under `delayed_slice:monitors_only`.
+# A case: optional failing task `f`; the trigger `pre` (fails itself / is unmet below `f` / is ignored / succeeds); a
+# creator delayed until `pre` was executed that makes ONE plain task `late` (shape plain) or a GROUP `late` with k
+# sub-tasks (shape group); a task `d` depending on `late` (task_dep / setup); an independent task `z`.
+# History: optional warm-up run (everything succeeds), the failing run B, the next run C (everything succeeds).
+
+_DL_LOCK = threading.Lock()
+_DL_EVENTS = []
+
+
+def _dl_ev(e):
+    with _DL_LOCK:
+        _DL_EVENTS.append(e)
+
+
+class DelayedReporter(object):
+    desc = 'recording reporter of the C05 delayed slice'
+
+    def __init__(self, outstream, options):
+        pass
+
+    def initialize(self, tasks, selected_tasks):
+        pass
+
+    def get_status(self, task):
+        pass
+
+    def execute_task(self, task):
+        pass
+
+    def add_failure(self, task, fail):
+        _dl_ev(['failure', task.name, type(fail).__name__])
+
+    def add_success(self, task):
+        _dl_ev(['success', task.name])
+
+    def skip_uptodate(self, task):
+        _dl_ev(['skip_uptodate', task.name])
+
+    def skip_ignore(self, task):
+        _dl_ev(['skip_ignore', task.name])
+
+    def cleanup_error(self, exception):
+        _dl_ev(['cleanup_error'])
+
+    def runtime_error(self, msg):
+        _dl_ev(['runtime_error', str(msg)[:200]])
+
+    def teardown_task(self, task):
+        pass
+
+    def complete_run(self):
+        _dl_ev(['complete'])
+
+
+DL_PRE = [('failed', 'return'), ('failed', 'object'), ('error', 'raise'), ('error', 'object'), ('failed', 'cmd'),
+          ('missing', '-'), ('unmet', '-'), ('ignored', '-'), ('ok', '-')]
+
+
+def gen_delayed(rng):
+    out, how = rng.choice(DL_PRE[:7] * 3 + DL_PRE)
+    return {'delayed': True, 'pre': out, 'how': how, 'shape': rng.choice(['plain', 'plain', 'group']),
+            'subs': rng.randint(1, 3), 'dependent': rng.choice([None, 'task_dep', 'setup']),
+            'late_first': rng.random() < 0.4, 'runner': rng.choice(['serial', 'serial', 'thread']),
+            'nproc': rng.randint(1, 3), 'cont': rng.random() < 0.75, 'warm': rng.random() < 0.35,
+            'backend': rng.choice(BACKENDS), 'sel': rng.choice([None, None, ['late', 'z'], ['d', 'z'], ['z', 'late']])}
+
+
+def dl_names(case):
+    """(all task names, names that depend on `pre` by construction)"""
+    late = ['late'] + (['late:s%d' % i for i in range(case['subs'])] if case['shape'] == 'group' else [])
+    dep = list(late) + (['d'] if case['dependent'] else [])
+    return late, dep
+
+
+def dl_render(case):
+    late, _dep = dl_names(case)
+    lines = ['backend=%s warm-up run=%s' % (case['backend'], case['warm'])]
+    if case['pre'] == 'unmet':
+        lines.append('f: action returns False in the failing run')
+    lines.append('pre: %s%s' % ({'unmet': "task_dep=['f']", 'missing': "file_dep=['missing_pre'] (does not exist in the failing run)",
+                                 'ignored': 'marked with `doit ignore` before the failing run',
+                                 'ok': 'succeeds'}.get(case['pre'], 'action %s (%s) in the failing run' % (case['pre'], case['how'])),
+                                ''))
+    lines.append("@create_after(executed='pre') task_late: %s%s" % (
+        'returns ONE plain task `late`' if case['shape'] == 'plain' else 'yields sub-tasks %s of group `late`' % late[1:],
+        ' (defined before task_pre)' if case['late_first'] else ''))
+    if case['dependent']:
+        lines.append("d: %s=['late']" % case['dependent'])
+    lines.append('z: independent')
+    sel = case.get('sel')
+    if sel and 'd' in sel and not case['dependent']:
+        sel = [x for x in sel if x != 'd'] + ['late']
+    lines.append('$ doit run %s%s%s' % ('--continue ' if case['cont'] else '',
+                                        ('-n %d -P thread ' % case['nproc']) if case['runner'] == 'thread' else '',
+                                        ' '.join(sel or [])))
+    return '\n'.join(lines)
+
+
+def dl_namespace(case, cell):
+    from doit import create_after
+    from doit.exceptions import TaskFailed, TaskError
+
+    def act(name):
+        def action():
+            _dl_ev(['start', name])
+            return True
+        action.__name__ = 'act_' + fsname(name)
+        return action
+
+    def pre_action():
+        _dl_ev(['start', 'pre'])
+        if cell['phase'] != 'B' or case['pre'] not in ('failed', 'error') or case['how'] == 'cmd':
+            return True
+        return _fail_now(case['pre'], case['how'])
+
+    def f_action():
+        _dl_ev(['start', 'f'])
+        return cell['phase'] != 'B'
+
+    def task_pre():
+        d = {'actions': [pre_action]}
+        if case['pre'] == 'failed' and case['how'] == 'cmd' and cell['phase'] == 'B':
+            d['actions'].append('exit 1')
+        if case['pre'] == 'unmet':
+            d['task_dep'] = ['f']
+        if case['pre'] == 'missing':
+            d['file_dep'] = ['missing_pre']
+        return d
+
+    def late_creator():
+        _dl_ev(['created'])
+        if case['shape'] == 'plain':
+            return {'actions': [act('late')]}
+        return ({'name': 's%d' % i, 'actions': [act('late:s%d' % i)]} for i in range(case['subs']))
+    task_late = create_after(executed='pre')(late_creator)
+    ns = {}
+    if case['late_first']:
+        ns['task_late'] = task_late
+    if case['pre'] == 'unmet':
+        ns['task_f'] = lambda: {'actions': [f_action]}
+    ns['task_pre'] = task_pre
+    ns['task_late'] = task_late
+    if case['dependent']:
+        ns['task_d'] = lambda: {'actions': [act('d')], case['dependent']: ['late']}
+    ns['task_z'] = lambda: {'actions': [act('z')]}
+    ns['DOIT_CONFIG'] = {'dep_file': os.path.abspath('depdb'), 'backend': case['backend'], 'verbosity': 0,
+                         'reporter': DelayedReporter}
+    return ns
+
+
+def dl_run(case, watchdog=12.0):
+    common.use_repo()
+    old_out, old_err = sys.stdout, sys.stderr
+    out = io.StringIO()
+    use_alarm = threading.current_thread() is threading.main_thread()
+    old_handler = None
+    cell = {'phase': 'A'}
+    obs = {}
+    sel = list(case.get('sel') or [])
+    if 'd' in sel and not case['dependent']:
+        sel = [x for x in sel if x != 'd'] + ['late']
+    with common.in_scratch('c05dl'):
+        try:
+            sys.stdout = sys.stderr = out
+            if use_alarm:
+                old_handler = signal.signal(signal.SIGALRM, runlib._alarm)
+            _write('missing_pre', 'sometimes missing\n')
+
+            def one(argv):
+                del _DL_EVENTS[:]
+                if use_alarm:
+                    signal.setitimer(signal.ITIMER_REAL, watchdog)
+                try:
+                    code, exc = _doit(dl_namespace(case, cell), argv)
+                finally:
+                    if use_alarm:
+                        signal.setitimer(signal.ITIMER_REAL, 0)
+                return {'trace': [list(e) for e in _DL_EVENTS], 'exit': code,
+                        'exc': type(exc).__name__ if exc is not None else None}
+            if case['warm']:
+                obs['warm'] = one(['run', '--continue'] + sel)
+            if case['pre'] == 'ignored':
+                dm = _open_db(case)
+                dm.ignore(_Stub('pre'))
+                dm.close()
+            if case['pre'] == 'missing':
+                os.unlink('missing_pre')
+            cell['phase'] = 'B'
+            argv = ['run'] + (['--continue'] if case['cont'] else [])
+            if case['runner'] == 'thread':
+                argv += ['-n', str(case['nproc']), '-P', 'thread']
+            obs['run'] = one(argv + sel)
+            try:
+                dm = _open_db(case)
+                late, dep = dl_names(case)
+                obs['recorded'] = {n: any(dm._get(n, k) is not None for k in ('deps:', 'checker:', '_values_:', 'result:'))
+                                   for n in ['f', 'pre', 'z'] + dep}
+                dm.close()
+            except Exception as e:  # noqa
+                obs['db_exc'] = type(e).__name__
+            if case['pre'] == 'missing':
+                _write('missing_pre', 'sometimes missing\n')
+            cell['phase'] = 'C'
+            obs['next'] = one(['run', '--continue'] + sel)
+        finally:
+            if use_alarm:
+                signal.setitimer(signal.ITIMER_REAL, 0)
+                if old_handler is not None:
+                    signal.signal(signal.SIGALRM, old_handler)
+            sys.stdout, sys.stderr = old_out, old_err
+            gc.collect()
+    obs['stderr'] = out.getvalue()[-400:]
+    return obs
+
+
+def dl_monitors(case, obs):
+    """the statement of C05 on the delayed slice: (a) once `pre` (or `f`) has a failure report / is reported ignored-
+    hence-unmet, nothing depending on it starts: `pre` below `f`; the task(s) made by the creator delayed until `pre`
+    was executed and `d` below `pre`; (b) a task with a failure report has no record and executes in the next run;
+    (c) with --continue the independent task is executed and everything selected gets its report; (d) serial without
+    --continue: nothing starts after the first failure report"""
+    flags = {'C05_no_dependent_runs': True, 'C05_serial_stops': True, 'C05_continue_complete': True,
+             'C05_not_recorded': True, 'C05_reexecuted': True}
+    wit = {}
+    late, dep = dl_names(case)
+    below = {'f': ['pre'] + dep, 'pre': list(dep), 'late': ['d'] if case['dependent'] else []}
+    for s_ in late[1:]:
+        below[s_] = ['late'] + below['late']
+    tr = obs['run']['trace']
+    failed = []
+    for i, e in enumerate(tr):
+        if e[0] == 'failure':
+            failed.append(e[1])
+        elif e[0] == 'start':
+            bad = [x for x in failed if e[1] in below.get(x, [])]
+            if bad and flags['C05_no_dependent_runs']:
+                flags['C05_no_dependent_runs'] = False
+                wit['no_dependent_runs'] = {'started': e[1], 'at': i, 'after_failure_of': bad}
+            if failed and case['runner'] == 'serial' and not case['cont'] and flags['C05_serial_stops']:
+                flags['C05_serial_stops'] = False
+                wit['serial_stops'] = {'started': e[1], 'at': i}
+    ex = obs['run']['exit']
+    if case['cont'] and ex is not None and 0 <= ex <= 2 and tr and tr[-1] == ['complete']:
+        sel = case.get('sel')
+        if (sel is None or 'z' in sel) and not any(e[0] == 'start' and e[1] == 'z' for e in tr):
+            flags['C05_continue_complete'] = False
+            wit['continue_complete'] = {'independent_task_not_executed': 'z'}
+        if failed and ex == 0:
+            flags['C05_continue_complete'] = False
+            wit['continue_complete'] = {'exit_code_0_with_failure_reports': failed}
+    rec = obs.get('recorded') or {}
+    for x in failed:
+        if rec.get(x):
+            flags['C05_not_recorded'] = False
+            wit['not_recorded'] = {'task': x, 'record_present_after_failure': True}
+    ntr = (obs.get('next') or {}).get('trace', [])
+    own = [x for x in failed if x in ('f', 'pre')]
+    for x in own:
+        if any(e[0] == 'skip_uptodate' and e[1] == x for e in ntr):
+            flags['C05_reexecuted'] = False
+            wit['reexecuted'] = {'task': x, 'next_run': 'skip_uptodate'}
+    return flags, wit
+
+
+def dl_ok(case, obs):
+    w = obs.get('warm')
+    return w is None or (w['exit'] == 0 and w['exc'] is None and not any(e[0] == 'failure' for e in w['trace']))
+
+
+def dl_witness(case, obs, bad, flags, wit):
+    return {'case': case, 'rendered': dl_render(case).split('\n'), 'failed_monitors': bad, 'python_monitors': flags,
+            'detail': wit, 'trace': obs['run']['trace'], 'exit': obs['run']['exit'], 'exc': obs['run']['exc'],
+            'recorded_after_run': obs.get('recorded'), 'next_run': obs.get('next'), 'warm_up': obs.get('warm'),
+            'delayed_slice': True}
+
+
+def dl_shrink(case, first):
+    """greedy: drop features while the same monitor stays false"""
+    cur = dict(case)
+    for k, v in (('warm', False), ('dependent', None), ('sel', None), ('late_first', False), ('runner', 'serial'),
+                 ('subs', 1), ('backend', 'json')):
+        if cur.get(k) == v:
+            continue
+        cand = dict(cur)
+        cand[k] = v
+        try:
+            o = dl_run(cand)
+            fl, _w = dl_monitors(cand, o)
+            if dl_ok(cand, o) and not fl[first]:
+                cur = cand
+        except Exception:  # noqa
+            pass
+    return cur
+
+
+def eval_delayed(batch):
+    st = common.WorkerStats()
+    common.use_repo()
+    cases = [json.loads(json.dumps(c)) for c in batch.get('cases', [])]
+    for seed in batch.get('gen', []):
+        c = gen_delayed(random.Random(seed))
+        c['seed'] = seed
+        cases.append(c)
+    shrinks = 0
+    for c in cases:
+        obs = dl_run(c)
+        tr = obs['run']['trace']
+        nt = any(e[0] == 'failure' for e in tr)
+        st.case({'case': dl_render(c).split('\n')}, nt)
+        st.traces += 1
+        st.count('delayed_slice:monitors_only')
+        st.count('delayed_slice:shape:%s' % c['shape'])
+        st.count('delayed_slice:trigger_%s' % c['pre'])
+        st.count('delayed_slice:%s%s' % (c['runner'], ':continue' if c['cont'] else ''))
+        if any(e[0] == 'created' for e in tr):
+            st.count('delayed_slice:creator_evaluated_in_failing_run')
+        if any(e[0] == 'failure' and e[1] == 'late' for e in tr):
+            st.count('delayed_slice:delayed_task_reported_unmet')
+        if not dl_ok(c, obs):
+            st.count('warmup_not_clean')
+            continue
+        flags, wit = dl_monitors(c, obs)
+        bad = [k for k in flags if not flags[k]]
+        if bad:
+            small = c
+            w0 = dl_witness(c, obs, bad, flags, wit)
+            if _sig_delayed_group_subtasks(w0):
+                # the open finding delayed-group-subtasks-run: reported as it is (no shrinking work spent on it)
+                st.count('delayed_slice:open_finding_shape')
+                st.violation(w0, 'monitor:' + ','.join(bad), '%s false on the implementation (delayed slice: %s)' % (bad, wit))
+                continue
+            if shrinks < 3:
+                shrinks += 1
+                small = dl_shrink(c, bad[0])
+            o2 = dl_run(small)
+            f2, w2 = dl_monitors(small, o2)
+            b2 = [k for k in f2 if not f2[k]]
+            w = dl_witness(small, o2, b2, f2, w2) if b2 else dl_witness(c, obs, bad, flags, wit)
+            st.violation(w, 'monitor:' + ','.join(w['failed_monitors']),
+                         '%s false on the implementation (delayed slice: %s)' % (w['failed_monitors'], w['detail']))
+            st.count('violation_found')
+    return st
+
+
+def delayed_small_scope():
+    out = []
+    i = 0
+    for shape in ('plain', 'group'):
+        for pre, how in DL_PRE:
+            for cont in (True, False):
+                for runner in ('serial', 'thread'):
+                    i += 1
+                    out.append({'delayed': True, 'pre': pre, 'how': how, 'shape': shape, 'subs': 2,
+                                'dependent': (None, 'task_dep', 'setup')[i % 3], 'late_first': i % 4 == 1,
+                                'runner': runner, 'nproc': 1 + i % 2, 'cont': cont, 'warm': i % 5 == 0,
+                                'backend': BACKENDS[i % 3], 'sel': None})
+    return out
 
 
 # ======================================================================================================
@@ -1268,14 +1677,26 @@ def plan(ctx, scale=1.0):
     ctx.extra['exhaustive_small_scope']['thread_completion_orders'] = {
         'cases': len(ex), 'schedules': 'every completion order under eager dispatch, 2 and 3 workers (limit 48 per case)'}
     pool += [{'explore': ex[i:i + 3], 'limit': 48, 'shrink_s': 6.0} for i in range(0, len(ex), 3)]
+    # round 6: delayed creators below a failing trigger (monitors only): the small scope + generated cases
+    dl = delayed_small_scope()
+    n_dl = int((48 if quick else 900) * ctx.boost * scale)
+    dl_seeds = [rng.randrange(1 << 60) for _ in range(n_dl)]
+    ctx.extra['exhaustive_small_scope']['delayed_slice'] = {
+        'cases': len(dl), 'shape': 'trigger of a delayed creator fails (9 placements) x plain/group x serial/thread x --continue',
+        'generated': n_dl, 'level': 'monitors only (no trace acceptance: M1 has no delayed creators)'}
+    pool += [{'delayed': True, 'cases': dl[i:i + 18]} for i in range(0, len(dl), 18)]
+    pool += [{'delayed': True, 'gen': dl_seeds[i:i + 20]} for i in range(0, len(dl_seeds), 20)]
     procs = [(rng.randrange(1 << 60), {'runner': 'process', 'n_max': 6}) for _ in range(n_proc)]
     return pool, [{'gen': procs[i:i + 4], 'shrink_s': 8.0} for i in range(0, len(procs), 4)]
 
 
 def corpus_batches():
-    plain, main, explore = [], [], []
+    plain, main, explore, delayed = [], [], [], []
     for name, c in common.load_corpus(PROP):
         c['corpus'] = name
+        if c.get('delayed'):
+            delayed.append(c)
+            continue
         variants = [c]
         if c.get('all_backends'):
             variants = []
@@ -1293,6 +1714,8 @@ def corpus_batches():
                 plain.append(x)
     pool = [{'cases': plain[i:i + 12], 'shrink_s': 10.0} for i in range(0, len(plain), 12)]
     pool += [{'explore': explore[i:i + 3], 'limit': 40, 'shrink_s': 6.0} for i in range(0, len(explore), 3)]
+    if delayed:
+        pool.append({'delayed': True, 'cases': delayed})
     return pool, ([{'cases': main, 'shrink_s': 10.0}] if main else [])
 
 
@@ -1322,6 +1745,19 @@ def replay(ctx, data):
         for r in data.get('no_longer_checks', [])[:5]:
             print(' -', r.get('kind'), ':', str(r.get('note'))[:400])
         return False
+    if case.get('delayed'):
+        print(dl_render(case))
+        obs = dl_run(case)
+        print('warm-up run   :', obs.get('warm'))
+        print('failing run   : exit=%s exc=%s %s' % (obs['run']['exit'], obs['run']['exc'], obs['run']['trace']))
+        print('records after it:', obs.get('recorded'))
+        print('next run      :', obs.get('next'))
+        flags, wit = dl_monitors(case, obs)
+        print('python monitors (delayed slice, monitors only):', flags)
+        bad = [k for k in flags if not flags[k]]
+        if bad:
+            print('FAILED monitors:', bad, wit)
+        return not bad
     case = prepare(json.loads(json.dumps(case)))
     print(render(case))
     obs = run_phases(case)
